@@ -215,6 +215,31 @@ def decide(prop, mod, results, tier, seed, wall):
                 row["informational"] = True
                 continue
             counted = not is_bounded and not o.get("enum_bound")
+            # witnesses of listed known findings that still violate the obligation (its residual is proved separately)
+            for h in o.get("known_hits", []):
+                kf_ = open_ids.get(h["id"])
+                if kf_ is not None and kf_.get("obligation") == o["name"]:
+                    if not any(x["id"] == h["id"] for x in known_hits):
+                        rep_ = {"confirmed": None, "detail": "no replay function"}
+                        fn_ = _lookup(getattr(mod, "REPLAY", {}), o["name"])
+                        if fn_ is not None and h.get("model") is not None:
+                            try:
+                                c_, d_ = fn_(h["model"])
+                                rep_ = {"confirmed": bool(c_), "detail": d_}
+                            except Exception:
+                                rep_ = {"confirmed": False, "detail": "replay crashed"}
+                        known_hits.append({"id": h["id"], "obligation": o["name"], "what": kf_["what"], "model": h.get("model"), "replay": rep_})
+                        lines.append(f"KNOWN-FINDING: property={prop} {kf_['what']} [{h['id']}; obligation {o['name']}]")
+                else:
+                    # the contract names a finding that known_findings.json does not list: that is a violation
+                    os.makedirs(replays_dir, exist_ok=True)
+                    path_ = os.path.join(replays_dir, f"{o['name']}.{h['id']}.json")
+                    with open(path_, "w") as fh_:
+                        json.dump({"property": prop, "obligation": o["name"], "model": h.get("model"),
+                                   "note": f"violates the obligation inside witness {h['id']}, which known_findings.json does not list"}, fh_, indent=1, default=str)
+                    lines.append(f"VIOLATION property={prop} replay={path_} no-failing-input-found")
+                    violations.append({"obligation": o["name"], "replay": path_, "confirmed": None, "model": h.get("model")})
+                    exit_code = 1
             if counted:
                 obligations += 1
             if o["status"] == "discharged":
